@@ -422,10 +422,17 @@ func main() {
 	r.Set("syntax_tree_comparison_available", ping.Acorn)
 
 	// x: an ordinary name; a: the first short name the minifier hands out;
-	// k (thorough only): a second ordinary name.
+	// thorough adds b (the second short name) and k (a second ordinary name).
 	poolNames := []string{"x", "a"}
 	if r.Thorough() {
-		poolNames = append(poolNames, "k")
+		poolNames = append(poolNames, "b", "k")
+	}
+
+	// names that are host globals when a program mentions them: the pool and b
+	// (the "taken-*" templates use a and b as fixed names in every tier)
+	hostNames := append([]string{}, poolNames...)
+	if !r.Thorough() {
+		hostNames = append(hostNames, "b")
 	}
 
 	// Tiers. Level 1 and 2: every sequence over the atoms of the full pool.
@@ -525,7 +532,7 @@ func main() {
 				texts = append(texts, programText(seq))
 			}
 
-			outs, ok := judgeBatch(np, texts, poolNames)
+			outs, ok := judgeBatch(np, texts, hostNames)
 			if !ok {
 				mu.Lock()
 				hung += int64(len(texts))
@@ -634,7 +641,7 @@ func main() {
 			}
 
 			r.Violation(cells[i], L*100000+len(text), progWitness{Cell: cells[i], Statements: stmts, Program: text, Variant: f.o.variant, Minified: f.o.minified,
-				Original: f.o.want, Result: f.o.got, Names: poolNames}, message(f.o))
+				Original: f.o.want, Result: f.o.got, Names: hostNames}, message(f.o))
 		}
 
 		r.Set(fmt.Sprintf("programs_of_%d_statements", L), total)
